@@ -694,6 +694,10 @@ def weave_loops(body, loops, key):
                         found.append(aa)
                         break
                 j += 1
+    if not found and loops:
+        # the loop was replaced by loop-free code: there is nothing to attach the invariants to, and a
+        # loop-free body needs none - the function's own postconditions still have to be proved
+        return body
     if len(found) != len(loops):
         raise AnchorLost('%s: %d loops in body, %d loop contracts' % (key, len(found), len(loops)))
     out = []
@@ -830,6 +834,15 @@ class Unit:
             idx = sources[e.src]
             it = idx.get(e.key)
             if it is None:
+                # A constant or a helper function that no longer exists has no users either (the crate would not
+                # compile otherwise): nothing to emit and nothing to prove about it. Functions whose contract
+                # carries property clauses (named Cnn....) must exist - their absence leaves the property undecided.
+                c_ = self.fn_contracts.get(e.key)
+                helper = e.kind == 'fn' and c_ is not None and not any(
+                    re.match(r'C\d\d\.', str(x[0])) for x in (list(c_.post or []) + list(c_.ok or [])) if isinstance(x, tuple))
+                if (e.kind in ('item', 'pin') and re.search(r'(^|::)const \w+$', e.key) and e.kind == 'item') or helper:
+                    meta.setdefault('skipped_missing', []).append(e.key)
+                    continue
                 raise AnchorLost('item not found in expansion of %s: %s' % (e.src, e.key))
             if isinstance(it, list) and e.kind != 'inherent':
                 raise AnchorLost('ambiguous item key: %s' % e.key)
